@@ -31,7 +31,6 @@ pub fn factorize(a: &Polynomial<BigInt>) -> (BigInt, Vec<(Polynomial<BigInt>, us
     for factor in factors {
         let mut e = 0;
         while let Some(quo) = div_exact(&a, &factor) {
-            assert!(e <= 5);
             a = quo;
             e += 1;
         }
